@@ -148,8 +148,10 @@ def change_basis_Qbfs_to_Pn(cs):
 
     """
     if hasattr(cs, 'dtype'):
-        # array, initialize as array
-        bs = np.empty_like(cs)
+        # array, initialize as array; an integer array (e.g. a one-hot vector
+        # selecting a single mode) must not truncate the new coefficients
+        dtype = cs.dtype if cs.dtype.kind in 'fc' else config.precision
+        bs = np.empty_like(cs, dtype=dtype)
     else:
         # iterable input
         bs = np.empty(len(cs), dtype=config.precision)
@@ -961,8 +963,10 @@ def change_of_basis_Q2d_to_Pnm(cns, m):
 
     cs = cns
     if hasattr(cs, 'dtype'):
-        # array, initialize as array
-        ds = np.empty_like(cs)
+        # array, initialize as array; an integer array (e.g. a one-hot vector
+        # selecting a single mode) must not truncate the new coefficients
+        dtype = cs.dtype if cs.dtype.kind in 'fc' else config.precision
+        ds = np.empty_like(cs, dtype=dtype)
     else:
         # iterable input
         ds = np.empty(len(cs), dtype=config.precision)
